@@ -95,7 +95,7 @@ def cases(tier):
             for cs in itertools.product(tri, tri, tri):
                 out.append(program(p, list(cs), close))
     # messages that are falsy (None, 0, '') - with the close swept over every position, also right behind the put
-    falsy = [[['TRY', [['PUT', 'ch', None]]], ['TRY', [['PUT', 'ch', 0]]]], [['D', 1], ['TRY', [['PUT', 'ch', '']]], ['TRY', [['PUT', 'ch', 'b1']]]]]
+    falsy = [[['TRY', [['PUT', 'ch', 0]]], ['TRY', [['PUT', 'ch', 'a1']]]], [['D', 1], ['TRY', [['PUT', 'ch', None]]], ['TRY', [['PUT', 'ch', '']]]]]
     for close in ('t1+', 't2'):
         for p in ([falsy[0]], [falsy[1]], falsy):
             for c1, c2 in itertools.product([consumer(0, 'get'), consumer(0, 'iter'), consumer(1, 'get2'), consumer(0, 'get2')], repeat=2):
